@@ -187,11 +187,30 @@ fb = fn(fbk: int, fbr: bool) -> bool {
   modify gb = !gb
   return fbr
 }
+class Bbox {
+  fb: bool
+  constructor(self, bbv: bool) {
+    self.fb = bbv
+  }
+  fn flip(self, bfbk: int, bfbr: bool) -> bool {
+    print "bfb " + bfbk
+    self.fb = !self.fb
+    return bfbr
+  }
+}
+gob = Bbox(false)
+glb: [bool...] = [false, true]
+blb = fn(blbk: int, blbr: bool) -> bool {
+  print "blb " + blbk
+  glb[0] = !glb[0]
+  return blbr
+}
 """
 
-INIT_STATE = {'gv': 50, 'gf': 60, 'ge': 70, 'gb': False}
-MUT_LOG = {'gv': 'bg', 'gf': 'bf', 'ge': 'bl', 'gb': 'fb'}
-VAR_SRC = {'gv': 'gv', 'gf': 'go.gf', 'ge': 'gl[0]', 'gb': 'gb'}
+INIT_STATE = {'gv': 50, 'gf': 60, 'ge': 70, 'gb': False, 'gfb': False, 'geb': False}
+MUT_LOG = {'gv': 'bg', 'gf': 'bf', 'ge': 'bl', 'gb': 'fb', 'gfb': 'bfb', 'geb': 'blb'}
+VAR_SRC = {'gv': 'gv', 'gf': 'go.gf', 'ge': 'gl[0]', 'gb': 'gb', 'gfb': 'gob.fb', 'geb': 'glb[0]'}
+BOOL_PLACES = ('gb', 'gfb', 'geb')
 
 OV = {1: 11, 2: 12}
 
@@ -310,8 +329,8 @@ class Ev:
             place = n[1]
             self.log.append("%s %d" % (MUT_LOG[place], n[2]))
             self.cnt('mutation ' + place)
-            if place == 'gb':
-                self.state['gb'] = not self.state['gb']
+            if place in BOOL_PLACES:
+                self.state[place] = not self.state[place]
                 return n[3]
             self.state[place] += 1
             return self.state[place]
@@ -575,6 +594,10 @@ def render(n):
             return "go.inc(%d)" % n[2]
         if n[1] == 'ge':
             return "bl(%d)" % n[2]
+        if n[1] == 'gfb':
+            return "gob.flip(%d, %s)" % (n[2], fmt(n[3]))
+        if n[1] == 'geb':
+            return "blb(%d, %s)" % (n[2], fmt(n[3]))
         return "fb(%d, %s)" % (n[2], fmt(n[3]))
     if k == 'rec':
         return "%s(%s)" % (n[1], ", ".join(render(a) for a in n[2]))
@@ -616,7 +639,7 @@ def type_of(n):
     if k == 'index':
         return 'B' if n[1][0] == 'call' and n[1][1] == 'lb2' else 'I'
     if k in ('var', 'mut'):
-        return 'B' if n[1] == 'gb' else 'I'
+        return 'B' if n[1] in BOOL_PLACES else 'I'
     if k == 'blit':
         return 'B'
     if k in ('nil', 'plit'):
@@ -1001,7 +1024,8 @@ def disturb_family():
                if 'V' in shape_leaves(s) and ('Mt' in shape_leaves(s) or 'Mf' in shape_leaves(s))]
     for kind, place, in_fn in (('gv', 'gv', False), ('gv@fn', 'gv', True), ('gf', 'gf', False), ('ge', 'ge', False)):
         yield kind, place, in_fn, [(fam_id(s), s) for s in ishapes]
-    for kind, place, in_fn in (('gb', 'gb', False), ('gb@fn', 'gb', True)):
+    for kind, place, in_fn in (('gb', 'gb', False), ('gb@fn', 'gb', True), ('gfb', 'gfb', False), ('gfb@fn', 'gfb', True),
+                               ('geb', 'geb', False), ('geb@fn', 'geb', True)):
         yield kind, place, in_fn, [(fam_id(s), s) for s in bshapes]
 
 
@@ -1109,9 +1133,9 @@ class Gen:
         if ty == 'B':
             v = r.random()
             if v < 0.08:
-                return ('var', 'gb')
+                return ('var', r.choice(BOOL_PLACES))
             if v < 0.16:
-                return ('mut', 'gb', self.nid(), r.random() < 0.5)
+                return ('mut', r.choice(BOOL_PLACES), self.nid(), r.random() < 0.5)
             if v < 0.24:
                 return ('blit', r.random() < 0.5)
             return ('tb', self.nid(), r.random() < 0.5)
